@@ -4,7 +4,7 @@
    the typed elements built from the blocks, KyGananciasSolares.txt and NewBDL_O.tbl are covered by
    the correspondence only. *)
 From Coq Require Import NArith Bool List String.
-From CTE Require Import Model.Bdl Model.BdlDoc Proofs.BdlP.
+From CTE Require Import Model.Bdl Model.BdlDoc Model.Kyg Proofs.BdlP Proofs.KygP.
 Import ListNotations.
 
 (* layout never matters: indentation, trailing blanks, CR before LF, blank lines, comment and LIDER
@@ -43,6 +43,19 @@ Proof. exact expected_from_fields. Qed.
 Theorem C18_numbers_typed : forall v, is_number v = true -> typed v = VNum v.
 Proof. exact typed_number. Qed.
 
+(* KyGananciasSolares.txt: a printed element line of either column layout, with either decimal
+   separator in its numbers, is read back field by field (orientation O is handed out as W) *)
+Theorem C18_kyg_wall_roundtrip : forall w, wf_kwall w = true -> parse_kline (print_wall w) = LWall w.
+Proof. exact wall_roundtrip. Qed.
+Theorem C18_kyg_window_roundtrip : forall w, wf_kwin w = true ->
+  parse_kline (print_win w) = LWin (mkKN (kn_name w) (kn_a w) (kn_u w) (replace_O_W (kn_orient w)) (kn_ff w) (kn_new w)).
+Proof. exact win_roundtrip. Qed.
+Theorem C18_kyg_bridge_roundtrip : forall t, wf_ktb t = true -> parse_kline (print_tb t) = LTb t.
+Proof. exact tb_roundtrip. Qed.
+Theorem C18_kyg_line_layout : forall w1 w2 l, all_wsb w1 = true -> all_wsb w2 = true -> edges_ok l = true ->
+  parse_kline (trim (w1 ++ l ++ w2)) = parse_kline l.
+Proof. exact kline_layout. Qed.
+
 (* non-vacuity: a two-block document with an upper-case exponent, a quoted name and a three-line list,
    printed with tabs, CR LF, blank and comment lines, meets every hypothesis of C18_roundtrip *)
 Local Open Scope string_scope.
@@ -69,3 +82,8 @@ Example C18_example :
   | _ => False
   end.
 Proof. vm_compute. repeat split; reflexivity. Qed.
+Example C18_kyg_example :
+  wf_kwin (mkKN (s2l "P02_E01_PE001_V") (s2l "2,00") (s2l "1.26") (s2l "SO") (s2l "10,00")
+                (Some (s2l "0.79", s2l "-1.00", s2l "1.00", s2l "50.00", s2l "PVC 2"))) = true /\
+  wf_kwall (mkKW (s2l "P01_E01_ME001") (s2l "30,00") (s2l "0,30") (s2l "1E0") None) = true.
+Proof. split; vm_compute; reflexivity. Qed.
